@@ -9,13 +9,19 @@ FLOW_FILES = ['mu.c']
 REPLAY_HINT = "VRT_SEED=<seed> [env] _work/h/<scenario>: the arena unmaps freed blocks (UAF) and the runtime knows every thread's parked stack pointer (DEADSTACK)"
 PARTIAL = ["the property's first sentence read literally ('touches nothing after the release') is false on the contended path: between the early release (spinlock CAS that drops the lock bits) and the last CAS another thread may lock and unlock; C13_pinned is the substitute: in that window the mutex is pinned by a non-empty queue / designated waker that the freeing thread would have to pass, and after the LAST CAS only waiter records are touched (C13_last_cas)",
            "C13_last_cas / C13_fast_release_is_last are facts about the model's step function for ANY world (syntactic in the hand-written skeleton; tied to the code by the lock-step replay and the flow pin of mu.c: after nsync_mu_unlock_slow_'s last word CAS the only nodes are the `waiting` store, semaphore V and EXIT); reads are not expressible in the model's footprint, they are the arena oracle's business",
-           "waker half: C13_waker_footprint (Properties_C11) covers nsync_wait_n records on cvs without transferred waiters; cancellable waits' on-stack records (sem_wait.c) have no theorem: arena + dead-stack oracles",
+           "waker half: C13_waker_footprint (Properties_C11) covers nsync_wait_n records on cvs without transferred waiters, and is tied to the code: the replay "
+           "compares the model's footprint with the implementation's traced accesses to nsync_waiter_s records at every replayed step (exact for heap arrays, "
+           "count > 4; per owner and call for on-stack records, because the trace has no stack offsets) and checks at the trace position of every such access "
+           "that the record is alive in the model; C13_psem_read_before_store and C13_v_touches_nothing show that wake_waiters' store step has r in its footprint "
+           "and hands the semaphore over in the pc, and that the V step touches no record.  Only ATOMIC accesses (the `waiting` word) are in the trace; plain "
+           "accesses (sem, flags, dll links) remain with the arena and dead-stack oracles.  Cancellable waits' on-stack records (sem_wait.c) have no theorem",
            "mutex half: proved as the two lemmas the refcount argument needs (C13_last_cas, C13_pinned, C13_fast_release_is_last) over the "
            "condition-free MuModel; the refcount theorem with an explicit free operation and the reader-mode variant (design finding F5: "
            "cv broadcast under a read lock with only nsync_wait_n records leaves MU_WAITING set over an empty queue) are decided by the arena "
            "oracle, not by a theorem",
            "waker half (cv / note / counter vs nsync_wait_n and cancellable waits): arena + dead-stack oracles over sampled schedules"]
-TRUSTED_BASE = ["harness/rt/vrt.c arena (one mapping per allocation, PROT_NONE after free, never reused) and dead-stack check"]
+TRUSTED_BASE = ["replay/waitn_replay.ml footprint comparison: attribution of traced events to model steps by the scenario's brackets and linearization events; stack regions carry no offsets",
+                "harness/rt/vrt.c arena (one mapping per allocation, PROT_NONE after free, never reused) and dead-stack check"]
 
 
 def run(tier, seed):
